@@ -258,6 +258,28 @@ def check_C01(chk):
                 "failure" if failed else "success",
                 "some check failed or a test ended abnormally" if bad else "every check passed and every test completed",
                 rep, mode), replay_of(root, rep, mode, {"exit": run.exit, "stdout": run.stdout[-2000:]}))
+    # ---- a check that fails in a suite-level fixture run around a sub-suite (in the runner's process; its record is
+    # read when the next test or the suite finishes) is a failed assertion somewhere in the suite tree: the verdict is
+    # failure.  The runner model has no scripts for these fixtures: the implementation alone is judged here.
+    T, S = L.Test, L.Suite
+    fx = []
+    for rep in (L.REPORTERS if chk.tier == "thorough" else ["text", "xml", "libxml", "cute"]):
+        for which in ("t", "s"):
+            # s1 has only a sub-suite; its teardown runs after the last sub-suite, right before s1 finishes
+            fx.append((S(0, children=[S(1, has_setup=True, has_teardown=True, children=[S(2, children=[T(0, body=[("c", 1)])])]), T(1, body=[("c", 1)])]), rep, which, "s1"))
+            # the outermost suite itself
+            fx.append((S(0, has_setup=True, has_teardown=True, children=[S(1, children=[T(0, body=[("c", 1)])])]), rep, which, "s0"))
+    with ThreadPoolExecutor(vlib.NPROC) as ex:
+        fruns = list(ex.map(lambda c: L.run_impl(drv, c[0], c[1], "forked", scn_extra="F 90 %s\na 90 %s fail\n" % (c[3], c[2])), fx))
+    for (root, rep, which, sname), run in zip(fx, fruns):
+        chk.case(("suite-fixture", rep, which, sname))
+        chk.count("suite-fixture-check:" + ("teardown" if which == "t" else "setup"))
+        if run.timeout:
+            chk.violation("nontermination", "run did not terminate", replay_of(root, rep, "forked"))
+        elif run.exit == 0:
+            chk.violation("verdict-suite-fixture-%s" % rep, "a check fails in the %s of suite %s (run around its sub-suite) and the verdict is success (reporter %s)" % (
+                "teardown" if which == "t" else "setup", sname, rep),
+                replay_of(root, rep, "forked", {"extra_scenario_lines": "F 90 %s / a 90 %s fail" % (sname, which), "exit": run.exit, "stdout": run.stdout[-1500:]}))
     runner_cases_C01(chk)
     return chk.finish()
 
